@@ -252,8 +252,8 @@ meta_ftype = z3.Function("meta_feature_type", Val, Key)
 STEPS = {
     "_match_exact": ("target_fields", "proved"),
     "_match_fuzzy": ("target_fields", "proved"),
-    "_match_display_names_exact": ("display", "assumed"),
-    "_match_display_names_fuzzy": ("display", "assumed"),
+    "_match_display_names_exact": ("display", "proved"),
+    "_match_display_names_fuzzy": ("display", "proved"),
 }
 
 
@@ -301,7 +301,9 @@ def _rebind(I, old, new):
 
 class StepAtCallSite(Contract):
     """a matching step used from the two infer_*_name_map pipelines: S1..S5 (E1..E3 for the exact step) - proved of the
-    real bodies of _match_exact / _match_fuzzy above, ASSUMED for the two display-name steps (bounded stand-in c17)"""
+    real bodies of _match_exact / _match_fuzzy (MatchStep) and of _match_display_names_exact / _fuzzy (DisplayExact; there
+    S5 reads 'a new key is the feature key of some display name', which build_display_name_mapping - assumed - turns
+    into 'a new key is a feature key')"""
 
     def __init__(self, fn):
         self.fn = fn
@@ -418,7 +420,410 @@ class Pipeline(Contract):
         return out
 
 
+# ------------------------------------------------------------------------------------------------ _match_display_names_exact
+i_ = z3.Int("i!n")
+S_ = z3.Select
+
+
+def enum_of(ctx, mem, name):
+    """an enumeration without repetition of the set `mem` (Key -> Bool): (n, at, pos)"""
+    n = ctx.fresh(name + "_n", Int)
+    at = ctx.fresh_fun(name + "_at", Int, Key)
+    pos = ctx.fresh_fun(name + "_pos", Key, Int)
+    ctx.assume(n >= 0)
+    ctx.assume(z3.ForAll([j_], IMP(AND(j_ >= 0, j_ < n), AND(S_(mem, at(j_)), pos(at(j_)) == j_)), patterns=[at(j_)]), "enum")
+    # instantiate for every element the membership is asked about (not only where pos(c) already occurs)
+    ctx.assume(z3.ForAll([c_], IMP(S_(mem, c_), AND(pos(c_) >= 0, pos(c_) < n, at(pos(c_)) == c_)), patterns=[S_(mem, c_)]), "enum")
+    return n, at, pos
+
+
+def _distinct_iter(self, I):
+    n, at, pos = enum_of(I.ctx, self.mem, "props")
+    out = SymList(n, lambda j: Sym(at(j)), elem_sort=Key)
+    out.pos, out.mem0 = pos, self.mem
+    return out
+
+
+DistinctList.m_iter = _distinct_iter
+
+
+class DisplayDict(ModelObj):
+    """display name -> (feature key, index)"""
+
+    type_names = ("dict",)
+
+    def __init__(self, ctx):
+        self.ctx = ctx
+        self.dom = ctx.fresh("D_dom", KeySet)
+        self.dk = ctx.fresh("D_key", z3.ArraySort(Key, Key))
+        self.di = ctx.fresh("D_idx", z3.ArraySort(Key, Int))
+        self._enum = None
+
+    def m_contains(self, I, k):
+        return Sym(S_(self.dom, to_z3(k, Key)))
+
+    def m_getitem(self, I, k):
+        ke = to_z3(k, Key)
+        if not I.guard(S_(self.dom, ke), "display name known"):
+            raise PyRaise(BuiltinExc("KeyError", (k,)))
+        return (Sym(S_(self.dk, ke)), Sym(S_(self.di, ke)))
+
+    def do_items(self, I):
+        if self._enum is None:
+            self._enum = enum_of(I.ctx, self.dom, "dnames")
+        n, at, pos = self._enum
+        out = SymList(n, lambda j: (Sym(at(j)), (Sym(S_(self.dk, at(j))), Sym(S_(self.di, at(j))))))
+        out.comp_table = self
+        return out
+
+    # as the source of a dict comprehension over .items()
+    esort = Key
+
+    @property
+    def mem(self):
+        return self.dom
+
+    def comp_item(self, x):
+        return (Sym(x), (Sym(S_(self.dk, x)), Sym(S_(self.di, x))))
+
+    def single(self, k, i):
+        """every display name of feature key k has index i"""
+        nm = z3.Const("name!n", Key)
+        return forall([nm], IMP(AND(S_(self.dom, nm), S_(self.dk, nm) == k), S_(self.di, nm) == i))
+
+    def is_single(self, c):
+        """every display name of c's feature key has c's index"""
+        nm = z3.Const("name!n", Key)  # its own bound variable: `c` may mention k_ or c_
+        return forall([nm], IMP(AND(S_(self.dom, nm), S_(self.dk, nm) == S_(self.dk, c)), S_(self.di, nm) == S_(self.di, c)))
+
+
+class MultiDict(ModelObj):
+    """feature key -> {index -> column}"""
+
+    type_names = ("dict",)
+
+    def __init__(self, ctx):
+        self.ctx = ctx
+        self.fresh()
+
+    def fresh(self):
+        ctx = self.ctx
+        self.has1 = ctx.fresh("mv_has1", KeySet)
+        self.has2 = ctx.fresh_fun("mv_has2", Key, Int, Bool)
+        self.val = ctx.fresh_fun("mv_val", Key, Int, Key)
+
+    @staticmethod
+    def empty(ctx):
+        d = MultiDict(ctx)
+        d.has1 = z3.K(Key, z3.BoolVal(False))
+        ctx.assume(forall([k_, i_], z3.Not(d.has2(k_, i_))))
+        return d
+
+    def m_contains(self, I, k):
+        return Sym(S_(self.has1, to_z3(k, Key)))
+
+    def do_get(self, I, k, default=None):
+        return InnerView(self, to_z3(k, Key), maybe_missing=True)
+
+    def m_getitem(self, I, k):
+        ke = to_z3(k, Key)
+        if not I.guard(S_(self.has1, ke), "feature key in multi_value_matches"):
+            raise PyRaise(BuiltinExc("KeyError", (k,)))
+        return InnerView(self, ke)
+
+    def m_setitem(self, I, k, v):
+        from pyvc.values import AssocDict
+        if not ((isinstance(v, dict) and not v) or (isinstance(v, AssocDict) and not v.items)):
+            raise Unsupported("only `d[key] = {}` is modelled")
+        ke = to_z3(k, Key)
+        h2 = self.has2
+        self.has1 = z3.Store(self.has1, ke, z3.BoolVal(True))
+        self.has2 = self.ctx.fresh_fun("mv_has2", Key, Int, Bool)
+        self.ctx.assume(forall([k_, i_], self.has2(k_, i_) == AND(h2(k_, i_), k_ != ke)))
+
+    def do_items(self, I):
+        n, at, pos = enum_of(I.ctx, self.has1, "mvkeys")
+        out = SymList(n, lambda j: (Sym(at(j)), InnerView(self, at(j))))
+        out.mpos, out.mat, out.md = pos, at, self
+        return out
+
+
+class InnerView(ModelObj):
+    type_names = ("dict",)
+
+    def __init__(self, d, k, maybe_missing=False):
+        self.d, self.k, self.maybe = d, k, maybe_missing
+
+    def present(self, i):
+        return AND(S_(self.d.has1, self.k), self.d.has2(self.k, i))
+
+    def m_contains(self, I, i):
+        return Sym(self.present(to_z3(i, Int)))
+
+    def m_setitem(self, I, i, v):
+        d, ctx, k = self.d, self.d.ctx, self.k
+        ie, ve = to_z3(i, Int), to_z3(v, Key)
+        h2, vl = d.has2, d.val
+        d.has2, d.val = ctx.fresh_fun("mv_has2", Key, Int, Bool), ctx.fresh_fun("mv_val", Key, Int, Key)
+        ctx.assume(forall([k_, i_], d.has2(k_, i_) == OR(h2(k_, i_), AND(k_ == k, i_ == ie))))
+        ctx.assume(forall([k_, i_], d.val(k_, i_) == z3.If(AND(k_ == k, i_ == ie), ve, vl(k_, i_))))
+
+    def m_getitem(self, I, i):
+        ie = to_z3(i, Int)
+        if not I.guard(self.present(ie), "index in inner dict"):
+            raise PyRaise(BuiltinExc("KeyError", (i,)))
+        return Sym(self.d.val(self.k, ie))
+
+    def m_truthy(self, I):
+        ctx = I.ctx
+        r, w = ctx.fresh("inner_nonempty", Bool), ctx.fresh("some_idx", Int)
+        ctx.assume(IMP(r, self.present(w)))
+        ctx.assume(IMP(z3.Not(r), forall([i_], z3.Not(self.present(i_)))))
+        return ctx.branch(r, "inner dict non-empty")
+
+    def do_keys(self, I):
+        return InnerKeys(self)
+
+
+class InnerKeys(ModelObj):
+    def __init__(self, iv_):
+        self.iv = iv_
+
+    def m_iter(self, I):
+        return self
+
+
+def sorted_inner_keys(I, args, kw):
+    v = args[0]
+    if not isinstance(v, InnerKeys) or kw:
+        raise Unsupported("sorted() of this value")
+    ctx, iv_ = I.ctx, v.iv
+    m = ctx.fresh("n_idx", Int)
+    Sx = ctx.fresh_fun("sorted_idx", Int, Int)
+    sp = ctx.fresh_fun("sorted_pos", Int, Int)
+    ctx.assume(m >= 0)
+    ctx.assume(forall([j_], IMP(AND(j_ >= 0, j_ < m), AND(iv_.present(Sx(j_)), sp(Sx(j_)) == j_))), "sorted")
+    ctx.assume(forall([i_], IMP(iv_.present(i_), AND(sp(i_) >= 0, sp(i_) < m, Sx(sp(i_)) == i_))), "sorted")
+    jj = z3.Int("jj!n")
+    ctx.assume(forall([j_, jj], IMP(AND(j_ >= 0, j_ < jj, jj < m), Sx(j_) < Sx(jj))), "sorted")
+    return SymList(m, lambda j: Sym(Sx(j)), elem_sort=Int)
+
+
+class MappingDict(SymDict):
+    """the mapping: a value is a column name (VKey) or a list of column names (an opaque Val lv with uses(lv, c) <=> c is in the list)"""
+
+    def m_setitem(self, I, k, v):
+        if isinstance(v, SymList):
+            ctx = I.ctx
+            lv = ctx.fresh("list_value", Val)
+            ctx.assume(forall([c_], uses(lv, c_) == z3.Exists([j_], AND(j_ >= 0, j_ < v.n, to_z3(v.get(j_), Key) == c_))), "listvalue")
+            x = z3.Const("x!lv", Key)
+            ctx.assume(forall([x], lv != VKey(x)), "listvalue")
+            v = Sym(lv)
+        return SymDict.m_setitem(self, I, k, v)
+
+
+class DisplayLoop1(LoopSpec):
+    """for prop in importable_props"""
+
+    props = ("C17",)
+
+    def __init__(self, W):
+        self.W = W
+
+    def enter(self, I, fr, it):
+        self.it = it
+        if not isinstance(fr.env["multi_value_matches"], MultiDict):
+            fr.env["multi_value_matches"] = MultiDict.empty(I.ctx)
+
+    def havoc(self, I, fr, it, i, assigned):
+        ctx = I.ctx
+        for nm in ("prop", "feature_key", "idx", "is_multi_value", "closest", "_"):
+            fr.env.pop(nm, None)
+        fr.env["props_left"].mem = ctx.fresh("L", KeySet)
+        m = fr.env["mapping"]
+        m.dom, m.val = ctx.fresh("M_dom", KeySet), ctx.fresh("M_val", z3.ArraySort(Key, Val))
+        fr.env["multi_value_matches"].fresh()
+        if isinstance(self.W.G, GhostTarget):
+            self.W.G.fresh()
+
+    def ghost_step(self, I, fr, it, i):
+        # lemma (proved here, then available to the preservation obligations): the `any(...)` over the display names says
+        # whether the column's feature is multi-valued
+        im = fr.env.get("is_multi_value")
+        W = self.W
+        prop = to_z3(it.get(i), Key)
+        if im is not None:
+            D = W.D
+            fkv, ixv = to_z3(fr.env["feature_key"], Key), to_z3(fr.env["idx"], Int)
+            imf = im.e if isinstance(im, Sym) else z3.BoolVal(bool(im))
+            I.ctx.lemma(f"{I.frames[-1].qualname}/lemma:is_multi_value <=> the-feature-has-another-index", imf == z3.Not(D.single(fkv, ixv)), props=self.props)
+            if isinstance(W.G, GhostTarget):
+                # the column was consumed in this iteration: remember what it was matched to
+                G = W.G
+                dname = to_z3(fr.env["_"], Key)
+                G.gk, G.gi, G.gd = z3.Store(G.gk, prop, fkv), z3.Store(G.gi, prop, ixv), z3.Store(G.gd, prop, dname)
+
+    def inv(self, I, fr, it, i):
+        return display_clauses(self.W, fr.env["props_left"].mem, fr.env["mapping"], fr.env["multi_value_matches"], it.pos, i)
+
+
+class ExactTarget:
+    """exact step: a column is matched by the display name spelled like it"""
+
+    def __init__(self, D):
+        self.D = D
+
+    def fk(self, c):
+        return S_(self.D.dk, c)
+
+    def ix(self, c):
+        return S_(self.D.di, c)
+
+    def dn(self, c):
+        return c
+
+    def matched(self, c):
+        return S_(self.D.dom, c)
+
+
+class GhostTarget:
+    """fuzzy step: the display name / feature key / index a consumed column was matched to (ghost maps, set when it is consumed)"""
+
+    def __init__(self, ctx, D):
+        self.ctx, self.D = ctx, D
+        self.fresh()
+
+    def fresh(self):
+        ctx = self.ctx
+        self.gk = ctx.fresh("tgt_key", z3.ArraySort(Key, Key))
+        self.gi = ctx.fresh("tgt_idx", z3.ArraySort(Key, Int))
+        self.gd = ctx.fresh("tgt_name", z3.ArraySort(Key, Key))
+
+    def fk(self, c):
+        return S_(self.gk, c)
+
+    def ix(self, c):
+        return S_(self.gi, c)
+
+    def dn(self, c):
+        return S_(self.gd, c)
+
+    def matched(self, c):
+        D = self.D
+        return AND(S_(D.dom, self.dn(c)), S_(D.dk, self.dn(c)) == self.fk(c), S_(D.di, self.dn(c)) == self.ix(c))
+
+
+def display_clauses(W, PL, M, MV, pos, i):
+    from pyvc.terms import kv
+    D, G = W.D, W.G
+    proc = lambda c: AND(S_(W.L0, c), pos(c) < i)
+    new = lambda k: AND(S_(M.dom, k), z3.Not(S_(W.M0dom, k)))
+    fk, ix = G.fk, G.ix
+    single_used = lambda c: AND(new(fk(c)), S_(M.val, fk(c)) == VKey(c))
+    multi_used = lambda c: AND(MV.has2(fk(c), ix(c)), MV.val(fk(c), ix(c)) == c)
+    consumed = lambda c: AND(proc(c), G.matched(c), OR(single_used(c), multi_used(c)))
+    cm = lambda k: kv(S_(M.val, k))
+    mvv = lambda k, i: MV.val(k, i)
+    return [
+        ("A1a.new-single-keys-hold-one-processed-matched-column-of-their-own",
+         forall([k_], IMP(new(k_), AND(S_(M.val, k_) == VKey(cm(k_)), proc(cm(k_)), G.matched(cm(k_)), fk(cm(k_)) == k_, z3.Not(S_(PL, cm(k_))))))),
+        ("A1b.new-single-keys-belong-to-single-valued-features", forall([k_], IMP(new(k_), D.single(k_, ix(cm(k_)))))),
+        ("A2.never-overwrites", forall([k_], IMP(S_(W.M0dom, k_), AND(S_(M.dom, k_), S_(M.val, k_) == S_(W.M0val, k_))))),
+        ("A3a.multi-entries-hold-processed-matched-columns-of-their-key-and-index",
+         forall([k_, i_], IMP(MV.has2(k_, i_), AND(proc(mvv(k_, i_)), G.matched(mvv(k_, i_)), fk(mvv(k_, i_)) == k_, ix(mvv(k_, i_)) == i_, S_(MV.has1, k_), z3.Not(S_(PL, mvv(k_, i_))))))),
+        ("A3b.multi-keys-are-not-in-the-mapping", forall([k_, i_], IMP(MV.has2(k_, i_), z3.Not(S_(M.dom, k_))))),
+        ("A3c.multi-entries-belong-to-multi-valued-features", forall([k_, i_], IMP(MV.has2(k_, i_), z3.Not(D.single(k_, i_))))),
+        ("A4.every-multi-key-has-an-entry", forall([k_], IMP(S_(MV.has1, k_), z3.Exists([i_], MV.has2(k_, i_))))),
+        ("A5.remaining = columns-not-consumed", forall([c_], S_(PL, c_) == AND(S_(W.L0, c_), z3.Not(consumed(c_))))),
+        ("argument-list-not-modified", z3.BoolVal(W.Lin.mem is W.L0)),
+    ]
+
+
+class DisplayLoop2(LoopSpec):
+    """for feature_key, idx_to_prop in multi_value_matches.items()"""
+
+    props = ("C17",)
+
+    def __init__(self, W):
+        self.W = W
+
+    def enter(self, I, fr, it):
+        m = fr.env["mapping"]
+        self.Mmid = (m.dom, m.val)
+        self.MV = it.md
+        self.mv_snapshot = (it.md.has1, it.md.has2, it.md.val)
+        self.PL = fr.env["props_left"].mem
+
+    def havoc(self, I, fr, it, i, assigned):
+        ctx = I.ctx
+        for nm in ("feature_key", "idx_to_prop", "sorted_indices", "ordered"):
+            fr.env.pop(nm, None)
+        m = fr.env["mapping"]
+        m.dom, m.val = ctx.fresh("M_dom", KeySet), ctx.fresh("M_val", z3.ArraySort(Key, Val))
+
+    def inv(self, I, fr, it, j):
+        M, MV = fr.env["mapping"], self.MV
+        md, mv = self.Mmid
+        donek = lambda k: AND(S_(MV.has1, k), it.mpos(k) < j)
+        same_mv = MV.has1 is self.mv_snapshot[0] and MV.has2 is self.mv_snapshot[1] and MV.val is self.mv_snapshot[2]
+        return [
+            ("B1.converted-multi-keys-hold-the-list-of-their-columns",
+             forall([k_], IMP(donek(k_), AND(S_(M.dom, k_), forall([c_], uses(S_(M.val, k_), c_) == z3.Exists([i_], AND(MV.has2(k_, i_), MV.val(k_, i_) == c_))))))),
+            ("B2.other-keys-as-after-the-first-loop", forall([k_], IMP(z3.Not(donek(k_)), AND(S_(M.dom, k_) == S_(md, k_), S_(M.val, k_) == S_(mv, k_))))),
+            ("multi-dict-and-remaining-list-not-modified", z3.BoolVal(same_mv and fr.env["props_left"].mem is self.PL)),
+        ]
+
+
+class DisplayExact(Contract):
+    props = ("C17",)
+    sym_attr = {"Key": _key_attr}
+
+    def __init__(self, fn="_match_display_names_exact"):
+        self.fn = fn
+        self.qualname = f"{NM}.{fn}"
+        self.ext = {"model.sorted": sorted_inner_keys, "difflib.get_close_matches": get_close_matches}
+
+    def run(self, I, cfg):
+        ctx = I.ctx
+        W = World()
+        x = z3.Const("x!u", Key)
+        ctx.assume(forall([x, c_], uses(VKey(x), c_) == (x == c_)), "uses")
+        Lin = DistinctList(ctx.fresh("L0", KeySet))
+        M0 = SymDict.fresh(ctx, "M0", Key, Val)
+        M = MappingDict(M0.dom, M0.val, Key, Val)
+        D = DisplayDict(ctx)
+        W.Lin, W.L0, W.M0dom, W.M0val, W.D = Lin, Lin.mem, M.dom, M.val, D
+        W.G = ExactTarget(D) if self.fn == "_match_display_names_exact" else GhostTarget(ctx, D)
+        ctx.loopspecs[(self.qualname, 0)] = DisplayLoop1(W)
+        ctx.loopspecs[(self.qualname, 1)] = DisplayLoop2(W)
+        out = call_real(I, self.qualname, [Lin, D, M], {})
+        q = self.fn
+        if out[0] != "return":
+            ctx.oblige(f"C17/{q}/no-exception", False, props=self.props, note=str(out[1]))
+            return out
+        res = out[1]
+        ok = isinstance(res, DistinctList) and res is not Lin
+        ctx.oblige(f"C17/{q}/ensures:returns-a-new-list", z3.BoolVal(ok), props=self.props)
+        if not ok:
+            return out
+        L1 = res.mem
+        new = lambda k: AND(S_(M.dom, k), z3.Not(S_(W.M0dom, k)))
+        used = lambda c: AND(S_(W.L0, c), z3.Not(S_(L1, c)))
+        own = W.G.fk
+        for lbl, f in [
+            ("S1.list-shrinks", forall([c_], IMP(S_(L1, c_), S_(W.L0, c_)))),
+            ("S1.argument-list-not-modified", z3.BoolVal(Lin.mem is W.L0)),
+            ("S2.never-overwrites", forall([k_], IMP(S_(W.M0dom, k_), AND(S_(M.dom, k_), S_(M.val, k_) == S_(W.M0val, k_))))),
+            ("S3.consumed-column-is-used-by-its-feature-key-which-is-new", forall([c_], IMP(used(c_), AND(new(own(c_)), uses(S_(M.val, own(c_)), c_))))),
+            ("S4.a-new-key-uses-only-consumed-columns-of-its-own", forall([k_, c_], IMP(AND(new(k_), uses(S_(M.val, k_), c_)), AND(used(c_), own(c_) == k_)))),
+            ("S5.new-keys-are-feature-keys-of-display-names", forall([k_], IMP(new(k_), z3.Exists([c_], AND(S_(D.dom, c_), S_(D.dk, c_) == k_))))),
+        ]:
+            ctx.oblige(f"C17/{q}/ensures:{lbl}", f, props=self.props)
+        return out
+
+
 def units():
     from pyvc.verify import Unit
     return [Unit(MatchStep("_match_exact"), {}), Unit(MatchStep("_match_fuzzy"), {}), Unit(MapRemaining(), {}),
-            Unit(Pipeline("infer_node_name_map"), {}), Unit(Pipeline("infer_edge_name_map"), {})]
+            Unit(Pipeline("infer_node_name_map"), {}), Unit(Pipeline("infer_edge_name_map"), {}), Unit(DisplayExact(), {}), Unit(DisplayExact("_match_display_names_fuzzy"), {})]
